@@ -88,6 +88,12 @@ func failingStatements(w *world, maxM int) []failStmt {
 		failStmt{SQL: "CREATE TABLE t1 (z int)", Class: "create/duplicate"},
 		failStmt{SQL: "CREATE TABLE t1 (a int, c varchar(255))", Class: "create/duplicate"},
 		failStmt{SQL: "UPDATE t1 SET c = a", Class: "update/set-from-column"},
+		// table definitions an engine may or may not accept: if it refuses one, nothing of the table stays behind
+		failStmt{SQL: "CREATE TABLE w1 (a int, b int, a int)", Class: "create/repeated-column"},
+		failStmt{SQL: "CREATE TABLE w2 (a int, a varchar(255))", Class: "create/repeated-column"},
+		failStmt{SQL: "CREATE TABLE w3 (a int, b varchar(255), c boolean, b bigint, e int)", Class: "create/repeated-column"},
+		failStmt{SQL: "CREATE TABLE w4 ()", Class: "create/no-columns"},
+		failStmt{SQL: "CREATE TABLE w5 (a varchar(0))", Class: "create/varchar-0"},
 	)
 	if len(t.Rows) > 0 {
 		// valid statements over the whole tree: they are expected to succeed (then there is nothing to judge here);
